@@ -15,6 +15,8 @@ def _gaps(family, rnd, n):
         return [rnd.choice(GAP_MENU) for _ in range(n)]
     if family == 'lattice1400':
         return [rnd.choice(GAP_1400) for _ in range(n)]
+    if family == 'lattice4200':
+        return [rnd.choice([4200, 8400, 12600, 16800, 21000, 29400]) for _ in range(n)]
     if family == 'exp':
         return [float(int(max(2000.0, rnd.expovariate(1 / 9000.0)) * 10) / 10) for _ in range(n)]
     if family == 'uniform':
@@ -43,7 +45,7 @@ def catalogue_ref(k, family='menu', nlabels=70, ref_id=1, lead=14000, decimals=F
         rnd = random.Random('coma-catalogue/%s/%d/%d/%d' % (family, k, nlabels, sub))
         gaps = _gaps(family, rnd, nlabels - 1)
         mean = sum(gaps) / len(gaps)
-        if mean < 9000 and family != 'lattice1400':
+        if mean < 9000 and not family.startswith('lattice'):
             f = 9000.0 / mean
             gaps = [float(int(g * f * 10) / 10) for g in gaps]
         if dense_head:
